@@ -11,7 +11,7 @@ def codeAreaLen : Nat := 0x8000 - 0x4300
 /-- `get_bytes_from_code(code)` (p8png.py:141-170) -/
 def getBytesFromCode (code : Bytes) : Except Err Bytes :=
   let comp := compress code
-  if comp.length < code.length then
+  if comp.length + 8 < code.length then                      -- smaller even with the 8-byte header (repo fix 762f112)
     if code.length / 256 > 255 then .error .value else       -- bytes([len >> 8, ...])
     let cb := header code ++ comp
     if cb.length > codeAreaLen then .error .tooLarge
